@@ -89,7 +89,24 @@ type script struct {
 
 var sc script
 
+type nullLogger struct{}
+
+func (nullLogger) Printf(string, ...interface{}) {}
+
 var errPlain = errors.New("plain failure \"quoted\", disk 100% full (%s %d %v)")
+
+// createdStatus: the status a create implementation chooses itself (0: leave the default)
+func createdStatus() int {
+	sc.mu.Lock()
+	defer sc.mu.Unlock()
+	switch sc.outcome {
+	case "created200":
+		return 200
+	case "created202":
+		return 202
+	}
+	return 0
+}
 
 // act performs the scripted outcome; returns (isNil, err)
 func act(ctx *restli.RequestContext) (bool, error) {
@@ -102,6 +119,8 @@ func act(ctx *restli.RequestContext) (bool, error) {
 	case "override":
 		ctx.ResponseStatus = 202
 		return false, nil
+	case "created200", "created202":
+		return false, nil // the create handlers put the status into the entity they return
 	case "nil":
 		return true, nil
 	case "errresp":
@@ -173,14 +192,14 @@ func newServer() http.Handler {
 		if isNil || err != nil {
 			return nil, err
 		}
-		return &common.CreatedEntity[string]{Id: "new id"}, nil
+		return &common.CreatedEntity[string]{Id: "new id", Status: createdStatus()}, nil
 	})
 	restli.RegisterCreateWithReturnEntity(s, segs("create_ret"), nil, func(ctx *restli.RequestContext, rp *rpT, v *entT, qp *qpT) (*common.CreatedAndReturnedEntity[string, *entT], error) {
 		isNil, err := act(ctx)
 		if isNil || err != nil {
 			return nil, err
 		}
-		return &common.CreatedAndReturnedEntity[string, *entT]{CreatedEntity: common.CreatedEntity[string]{Id: "new id"}, Entity: &entT{X: 3}}, nil
+		return &common.CreatedAndReturnedEntity[string, *entT]{CreatedEntity: common.CreatedEntity[string]{Id: "new id", Status: createdStatus()}, Entity: &entT{X: 3}}, nil
 	})
 	restli.RegisterUpdate(s, segs("update"), nil, func(ctx *restli.RequestContext, rp *rpT, v *entT, qp *qpT) error {
 		_, err := act(ctx)
@@ -346,6 +365,7 @@ func main() {
 	u, _ := url.Parse(srv.URL)
 	rt := &recT{}
 	c := &restli.Client{Client: &http.Client{Transport: rt}, HostnameResolver: &restli.SimpleHostnameResolver{Hostname: u}, StrictResponseDeserialization: true}
+	cLogging := &restli.Client{Client: &http.Client{Transport: &restli.LoggingRoundTripper{RoundTripper: rt, Logger: nullLogger{}}}, HostnameResolver: &restli.SimpleHostnameResolver{Hostname: u}, StrictResponseDeserialization: true}
 	f, err := os.Open(*in)
 	if err != nil {
 		panic(err)
@@ -385,7 +405,13 @@ func main() {
 		sc.outcome, sc.errObj, sc.invoked = row.Outcome, obj, 0
 		sc.mu.Unlock()
 		*rt = recT{}
-		cerr, batchErrs := call(c, row.Adapter)
+		// every second exchange goes through a client whose transport is wrapped in the library's logging round tripper
+		// (it reads requests and responses on their way): what the caller gets must not depend on it
+		cl := c
+		if rows%2 == 0 {
+			cl = cLogging
+		}
+		cerr, batchErrs := call(cl, row.Adapter)
 		after := fieldsOf(obj)
 		cs := map[string]any{"adapter": row.Adapter, "outcome": row.Outcome, "fields": row.Fields, "http_status": rt.status, "error_header": rt.errHdr,
 			"client_error": fmt.Sprint(cerr), "expected_status": row.Status}
